@@ -54,6 +54,9 @@ inductive Fault where
   only a part of the pickled message is in the pipe (possible as soon as the result is larger than the
   pipe buffer, 64 KiB) -/
   | exitQueuedPartial (code : Nat)
+  /-- the process dies with exit code `code` after it has delivered its result and the log sentinel
+  (killed, or crashed while shutting down); `code = 0` is a normal exit -/
+  | exitAfterSentinel (code : Nat)
   deriving DecidableEq, Repr
 
 inductive WPhase where
@@ -90,6 +93,8 @@ structure Cfg (α β : Type) where
   fault : Nat → Option Fault
   /-- does every task emit a log record? -/
   logs : Bool
+  /-- the function raises in the master process at its local task `t` -/
+  mfault : Option Nat := none
 
 structure State (M β : Type) where
   m : M
@@ -101,6 +106,10 @@ structure State (M β : Type) where
   /-- `some p`: after the next `p` messages the result pipe continues with a truncated message (its
   writer died in the middle of the write); everything behind it is unreadable -/
   poison : Option Nat
+  /-- the exit-code snapshot the master took before its next `get`: in the gather loop "some child
+  whose result is missing has terminated" (`ended_procs` non-empty), while draining the log queue of a
+  child "that child has terminated" (`proc_ended`) -/
+  ended : Bool
 
 inductive Agent where
   | master
@@ -131,6 +140,15 @@ def queuedFault : Option Fault → Bool → Option Nat
 def partialFault : Option Fault → Option Nat
   | some (.exitQueuedPartial c) => some c
   | _ => none
+
+/-- exit code of a process that has delivered everything -/
+def exitCode : Option Fault → Nat
+  | some (.exitAfterSentinel c) => c
+  | _ => 0
+
+/-- `stop_processes()`: every child that is still running is terminated (SIGTERM) and joined -/
+def terminateAll (ws : Nat → Child β) : Nat → Child β :=
+  fun j => if isExited (ws j).phase then ws j else { ws j with phase := .exited 143 }
 
 /-- the first truncated message ends the readable part of the pipe -/
 def markPoison (p : Option Nat) (len : Nat) : Option Nat :=
@@ -166,7 +184,7 @@ def childStep (cfg : Cfg α β) (s : State M β) (j : Nat) : State M β :=
       match queuedFault (cfg.fault j) true with
       | some code => setChild s j { c with phase := .exited code }
       | none => setChild s j { c with phase := .finished, lq := c.lq ++ [.sentinel] }
-    | .finished => setChild s j { c with phase := .exited 0 }
+    | .finished => setChild s j { c with phase := .exited (exitCode (cfg.fault j)) }
     | .exited _ => s
   else s
 
@@ -219,23 +237,31 @@ def MPhase.terminal : MPhase β → Bool
   | .error => true
   | _ => false
 
-/-- the master's own chunk (`master_wrapper`), shared by both gather loops -/
-def ownStep (cfg : Cfg α β) (s : State M β) (t : Nat) (next : Nat → M) (after : M) : State M β :=
-  match (cfg.chunk 0)[t]? with
-  | some x => { s with m := next (t+1), acc0 := s.acc0 ++ [cfg.f 0 t x] }
-  | none => { s with m := after }
+/-- `ended_procs` non-empty: some child whose result is missing has terminated -/
+def snapG (cfg : Cfg α β) (s : State M β) : Bool :=
+  anyTo cfg.nchild (fun j => (s.ws j).got.isNone && isExited (s.ws j).phase)
 
-/-- `for proc in processes: proc.join()` followed by the concatenation by pid -/
-def joinStep (cfg : Cfg α β) (s : State M β) (done : List β → M) (error : M) : State M β :=
-  if allTo cfg.nchild (fun j => isExited (s.ws j).phase) then
-    match collect (filled cfg.nchild s.ws) s.ws with
-    | some r => { s with m := done (s.acc0 ++ r) }
-    | none => { s with m := error }
-  else s
+/-- `stop_processes()` followed by `raise` -/
+def raiseStop (s : State (MPhase β) β) : State (MPhase β) β :=
+  { s with m := .error, ws := terminateAll s.ws }
 
+/-- have all children exited with code 0? -/
+def allZero (cfg : Cfg α β) (s : State M β) : Bool :=
+  allTo cfg.nchild (fun j => decide ((s.ws j).phase = .exited 0))
+
+/-- One step of the master.  The two loops that wait for a child are `[snapshot of the exit code(s);
+get; (sleep)]*`; a step of the model is `get` (which uses the snapshot taken *before* it, the field
+`ended`) followed by the snapshot for the next `get` — so "exit code looked at before the queue" is
+part of the model, and a step that finds nothing and learns nothing leaves the state unchanged. -/
 def masterStep (cfg : Cfg α β) (s : State (MPhase β) β) : State (MPhase β) β :=
   match s.m with
-  | .own t => ownStep cfg s t .own .gather
+  | .own t =>
+    -- `master_wrapper` inside `try … except BaseException: stop_processes(); raise`
+    match (cfg.chunk 0)[t]? with
+    | some x =>
+      if cfg.mfault = some t then raiseStop s
+      else { s with m := .own (t+1), acc0 := s.acc0 ++ [cfg.f 0 t x] }
+    | none => { s with m := .gather, ended := snapG cfg s }
   | .gather =>
     -- `while len(pid_result_list_map) <= len(processes):`
     if filled cfg.nchild s.ws < cfg.nchild then
@@ -244,21 +270,33 @@ def masterStep (cfg : Cfg α β) (s : State (MPhase β) β) : State (MPhase β) 
       match s.rq with
       | (j, r) :: rest =>
         { setChild s j { s.ws j with got := some r } with
-          rq := rest, m := .drain j, poison := s.poison.map (· - 1) }
+          rq := rest, m := .drain j, poison := s.poison.map (· - 1),
+          ended := isExited (s.ws j).phase }               -- `proc_ended` for the first log `get`
       | [] =>
-        -- `ended_procs`: result missing and process terminated
-        if anyTo cfg.nchild (fun j => (s.ws j).got.isNone && isExited (s.ws j).phase) then
-          { s with m := .error }
-        else s
+        -- `queue.Empty`: `ended_procs` (taken before the `get`) non-empty → stop and raise
+        if s.ended then raiseStop s
+        else { s with ended := snapG cfg s }               -- sleep, next `ended_procs`
     else { s with m := .join }
   | .drain j =>
     if j < cfg.nchild then
       match (s.ws j).lq with
-      | .sentinel :: rest => { setChild s j { s.ws j with lq := rest } with m := .gather }
-      | .record :: rest => setChild s j { s.ws j with lq := rest }
-      | [] => if isExited (s.ws j).phase then { s with m := .error } else s
+      | .sentinel :: rest =>
+        { setChild s j { s.ws j with lq := rest } with m := .gather, ended := snapG cfg s }
+      | .record :: rest =>
+        { setChild s j { s.ws j with lq := rest } with ended := isExited (s.ws j).phase }
+      | [] =>
+        if s.ended then raiseStop s
+        else { s with ended := isExited (s.ws j).phase }
     else { s with m := .error }
-  | .join => joinStep cfg s .done .error
+  | .join =>
+    -- `proc.join()` for all, then the exit codes, then the concatenation by pid
+    if allTo cfg.nchild (fun j => isExited (s.ws j).phase) then
+      if allZero cfg s then
+        match collect (filled cfg.nchild s.ws) s.ws with
+        | some r => { s with m := .done (s.acc0 ++ r) }
+        | none => { s with m := .error }
+      else { s with m := .error }
+    else s
   | .done _ => s
   | .error => s
   | .recv => s
@@ -269,7 +307,8 @@ def step (cfg : Cfg α β) (s : State (MPhase β) β) : Agent → State (MPhase 
 
 def initChild : Child β := { phase := .running 0, acc := [], lq := [], got := none }
 
-def init : State (MPhase β) β := { m := .own 0, acc0 := [], rq := [], ws := fun _ => initChild, poison := none }
+def init : State (MPhase β) β :=
+  { m := .own 0, acc0 := [], rq := [], ws := fun _ => initChild, poison := none, ended := false }
 
 def run (cfg : Cfg α β) (σ : Nat → Agent) : Nat → State (MPhase β) β
   | 0 => init
@@ -282,12 +321,12 @@ def expected (cfg : Cfg α β) : List β := (List.range (cfg.nchild + 1)).flatMa
 
 /-- the configuration `parallelize(func, args_list, ncpu)` starts with -/
 def mkCfg (f : Nat → Nat → α → β) (args : List α) (ncpu : Nat) (fault : Nat → Option Fault)
-    (logs : Bool) : Cfg α β :=
+    (logs : Bool) (mfault : Option Nat := none) : Cfg α β :=
   -- `ncpu ≥ 1` is assumed (`get_ncpu` and `numpy.array_split` raise `ValueError` otherwise; the driver
   -- answers `error` for `ncpu = 0`); all theorems about `mkCfg` carry the hypothesis `1 ≤ ncpu`
   { nchild := ncpu - 1
     chunk := fun pid => (arraySplit args ncpu)[pid]?.getD []
-    f := f, fault := fault, logs := logs }
+    f := f, fault := fault, logs := logs, mfault := mfault }
 
 /-! ### the master of the pinned commit (gather loop `for proc in processes`) -/
 
@@ -309,9 +348,26 @@ def MPhase.terminal : MPhase β → Bool
   | .error => true
   | _ => false
 
+/-- the master's own chunk (`master_wrapper`); an exception of the function leaves `parallelize`
+at once, the children keep running -/
+def ownStep (cfg : Cfg α β) (s : State M β) (t : Nat) (next : Nat → M) (after error : M) : State M β :=
+  match (cfg.chunk 0)[t]? with
+  | some x =>
+    if cfg.mfault = some t then { s with m := error }
+    else { s with m := next (t+1), acc0 := s.acc0 ++ [cfg.f 0 t x] }
+  | none => { s with m := after }
+
+/-- `for proc in processes: proc.join()` followed by the concatenation by pid (exit codes ignored) -/
+def joinStep (cfg : Cfg α β) (s : State M β) (done : List β → M) (error : M) : State M β :=
+  if allTo cfg.nchild (fun j => isExited (s.ws j).phase) then
+    match collect (filled cfg.nchild s.ws) s.ws with
+    | some r => { s with m := done (s.acc0 ++ r) }
+    | none => { s with m := error }
+  else s
+
 def masterStep (cfg : Cfg α β) (s : State (MPhase β) β) : State (MPhase β) β :=
   match s.m with
-  | .own t => ownStep cfg s t .own (.poll 0)
+  | .own t => ownStep cfg s t .own (.poll 0) .error
   | .poll i =>
     if i < cfg.nchild then
       match s.rq with
@@ -335,13 +391,62 @@ def step (cfg : Cfg α β) (s : State (MPhase β) β) : Agent → State (MPhase 
   | .master => masterStep cfg s
   | .child j => childStep cfg s j
 
-def init : State (MPhase β) β := { m := .own 0, acc0 := [], rq := [], ws := fun _ => initChild, poison := none }
+def init : State (MPhase β) β :=
+  { m := .own 0, acc0 := [], rq := [], ws := fun _ => initChild, poison := none, ended := false }
 
 def run (cfg : Cfg α β) (σ : Nat → Agent) : Nat → State (MPhase β) β
   | 0 => init
   | k+1 => step cfg (run cfg σ k) (σ k)
 
 end Orig
+
+/-! ### a variant of the current gather loop with the two reads swapped: `rqueue.get` first, the exit
+codes only after `queue.Empty` (kept for `c09_check_after_get_counterexample`) -/
+
+namespace Swapped
+
+inductive MPhase (β : Type) where
+  | own (t : Nat)
+  | gather
+  /-- `queue.Empty` has been raised, the exit codes are looked at next -/
+  | check
+  | drain (j : Nat)
+  | join
+  | done (r : List β)
+  | error
+  deriving DecidableEq, Hashable, Repr
+
+def masterStep (cfg : Cfg α β) (s : State (MPhase β) β) : State (MPhase β) β :=
+  match s.m with
+  | .own t => Orig.ownStep cfg s t .own .gather .error
+  | .gather =>
+    if filled cfg.nchild s.ws < cfg.nchild then
+      match s.rq with
+      | (j, r) :: rest => { setChild s j { s.ws j with got := some r } with rq := rest, m := .drain j }
+      | [] => { s with m := .check }
+    else { s with m := .join }
+  | .check => if snapG cfg s then { s with m := .error } else { s with m := .gather }
+  | .drain j =>
+    match (s.ws j).lq with
+    | .sentinel :: rest => { setChild s j { s.ws j with lq := rest } with m := .gather }
+    | .record :: rest => setChild s j { s.ws j with lq := rest }
+    | [] => if isExited (s.ws j).phase then { s with m := .error } else s
+  | .join => Orig.joinStep cfg s .done .error
+  | .done _ => s
+  | .error => s
+
+def step (cfg : Cfg α β) (s : State (MPhase β) β) : Agent → State (MPhase β) β
+  | .master => masterStep cfg s
+  | .child j => childStep cfg s j
+
+def init : State (MPhase β) β :=
+  { m := .own 0, acc0 := [], rq := [], ws := fun _ => initChild, poison := none, ended := false }
+
+def run (cfg : Cfg α β) (σ : Nat → Agent) : Nat → State (MPhase β) β
+  | 0 => init
+  | k+1 => step cfg (run cfg σ k) (σ k)
+
+end Swapped
 
 /-! ### schedules -/
 
